@@ -55,16 +55,25 @@ func (node *tagIncludeNode) Execute(ctx *ExecutionContext, writer TemplateWriter
 		}
 		err2 = includedTpl.ExecuteWriter(includeCtx, writer)
 		if err2 != nil {
-			return err2.(*Error)
+			return includeError(ctx, err2)
 		}
 		return nil
 	}
 	// Template is already parsed with static filename
 	err := node.tpl.ExecuteWriter(includeCtx, writer)
 	if err != nil {
-		return err.(*Error)
+		return includeError(ctx, err)
 	}
 	return nil
+}
+
+// includeError returns the error of an included template's execution as an
+// *Error. It is one already unless the caller's writer failed.
+func includeError(ctx *ExecutionContext, err error) *Error {
+	if e, ok := err.(*Error); ok {
+		return e
+	}
+	return ctx.OrigError(err, nil)
 }
 
 type tagIncludeEmptyNode struct{}
